@@ -8,6 +8,7 @@
 //
 //	incdec     i++ / i-- become i += 1 / i -= 1
 //	neg-if     if c { A } else { B } becomes if !(c) { B } else { A } (no else-if chains)
+//	rename-locals  every local variable, parameter and named result is renamed
 //	guard      a trailing if c { A } becomes if !(c) { return / continue }; A
 //	minmax     x := A; if B < x { x = B } becomes x := min(A, B)
 //	rangeint   for i := 0; i < N; i++ becomes for i := range N
@@ -43,6 +44,36 @@ func main() {
 				continue
 			}
 			n := 0
+			if mode == "rename-locals" {
+				// every local variable, parameter and named result gets a new name (suffix Q)
+				ren := func(id *ast.Ident, obj types.Object) {
+					v, ok := obj.(*types.Var)
+					if !ok || v.IsField() || v.Pkg() == nil || v.Parent() == nil || v.Parent() == v.Pkg().Scope() || id.Name == "_" {
+						return
+					}
+					id.Name += "Q"
+					n++
+				}
+				ast.Inspect(f, func(node ast.Node) bool {
+					// switch x := y.(type): x is defined implicitly once per clause
+					if ts, ok := node.(*ast.TypeSwitchStmt); ok {
+						if as, ok := ts.Assign.(*ast.AssignStmt); ok && as.Tok == token.DEFINE && len(as.Lhs) == 1 {
+							if id, ok := as.Lhs[0].(*ast.Ident); ok && id.Name != "_" {
+								id.Name += "Q"
+								n++
+							}
+						}
+					}
+					if id, ok := node.(*ast.Ident); ok {
+						if obj := p.TypesInfo.Defs[id]; obj != nil {
+							ren(id, obj)
+						} else if obj := p.TypesInfo.Uses[id]; obj != nil {
+							ren(id, obj)
+						}
+					}
+					return true
+				})
+			}
 			ast.Inspect(f, func(node ast.Node) bool {
 				switch mode {
 				case "add-flip":
